@@ -67,6 +67,8 @@ FCond(c, s) ==
   CASE c = "always" -> TRUE
     [] c = "lt1000" -> s < 1000
     [] c = "lt100"  -> s < 100
+    [] c = "lt30"   -> s < 30
+    [] c = "lt10"   -> s < 10
     [] c = "never"  -> FALSE
 
 ---------------------------------------------------------------------------
